@@ -24,7 +24,7 @@ def run_spec(ctx, rep, spec, model, only=None):
         for limit in limits:
             for nofail in (False, True):
                 mode = {"opts": opts, "limit": limit, "nofail": nofail}
-                if only is not None and only != mode:
+                if only is not None and {k: v for k, v in only.items() if k != "cli"} != mode:
                     continue
                 # the full product on every plotfile is wasteful: every option set with limit None,
                 # every limit with a rotating option set
@@ -33,7 +33,10 @@ def run_spec(ctx, rep, spec, model, only=None):
                 case = {"spec": spec, "mode": mode}
                 rep.case({"s": spec, "m": mode}, nontrivial=(len(feats) >= 2 or oi != 3))
                 rep.count("opts:" + "".join("HSDC"[i] if v else "-" for i, v in enumerate(opts.values())))
-                good, raised = tastelib.real_taste(path, limit=limit, nofail=nofail, **opts)
+                cli = only.get("cli", False) if only is not None else ((oi + (limit or 0) + int(nofail)) % 3 == 1)
+                if cli:
+                    mode = dict(mode, cli=True); case = {"spec": spec, "mode": mode}; rep.count("console-script")
+                good, raised = tastelib.real_taste(path, limit=limit, nofail=nofail, cli=cli, **opts)
                 if raised is not None or not good:
                     rep.fail(f"a well-formed plotfile is reported bad (good={good}, raised={raised})", case,
                              obs={"good": good, "raised": raised},
